@@ -29,6 +29,9 @@ RULE = ('Configurations incl. positional-only parameters with defaults, defaults
         'convert_dataclasses_to_configs. Judged: build(T(c)) isomorphic to build(c); == kept by the '
         'first two; idempotence / completeness of materialize_defaults; serializability kept. '
         'Non-trivial: the transform changed the configuration; distinct = (DAG sketch, transform).')
+RULE_ADDITIONS = (' Added by the rounds of seeded changes (DESIGN 9.7): ' +
+                  'raises:inline:positional-arguments | TypeError | fix; inline with arguments shared with the enclosing tree; InitVar defaults, dataclass subclasses with their own __init__')
+RULE = RULE + RULE_ADDITIONS
 ASSUMPTIONS = [
     'a built functools.partial whose bindings all equal the callable\'s defaults is identified '
     'with the bare callable (needed for replace_unconfigured_partials_with_callables)',
